@@ -1017,7 +1017,8 @@ def envelope_unit(an, elem, dirs, q, heads, w, dform, amp, tails=None):
 
 
 def extrapolated_unit(an, cls, method, order, elem, dirs, hcols, k_est, ratio, w, dform, amp_rule, terms=2):
-    """min(U_basic, U_x): U_basic = unit of the documented leading order p over the k_est largest steps;
+    """U_x if at least one Richardson term applies, else U_basic: U_basic = unit of the documented leading order p
+    over the k_est largest steps;
     U_x = unit of order p + s*t over the k_est - t windows (head h_i, tail h_{i+t}) times sum |Richardson
     weights|, t = min(terms, k_est - 1).  hcols: list of step sequences (one per coordinate in dirs), each sorted
     descending.  Returns (U, which, t, T, R) with U = T + R (truncation and rounding parts at the minimising
@@ -1034,8 +1035,11 @@ def extrapolated_unit(an, cls, method, order, elem, dirs, hcols, k_est, ratio, w
         m = max(k_est - t, 1)
         ux = envelope_unit(an, elem, dirs, p_doc + s_doc * t, hs[:m], w, dform, amp_rule * amp_r,
                            tails=hs[t:t + m] if hs.size >= t + m else None)
-    if ub is None and ux is None:
-        return None
-    if ux is not None and (ub is None or ux[0] < ub[0]):
+    # with t >= 1 every value the library can return is a Richardson combination of t+1 estimates: its error is
+    # governed by U_x (which exceeds U_basic when the steps are not small against the radius of convergence, e.g.
+    # high-degree polynomials sampled far out), so U_x is the unit; U_basic only when nothing is extrapolated
+    if ux is not None:
         return ux[0], 'extrapolated', t, ux[1], ux[2]
+    if ub is None:
+        return None
     return ub[0], 'basic', t, ub[1], ub[2]
